@@ -535,7 +535,111 @@ func c11Lab(t *testing.T) {
 			failf(rt, "%d messages were relayed for a stream of %d messages", len(got), n)
 		}
 	})
+	c11Bulk(t, s)
 	c11ReturnStreams(t, s)
+}
+
+// c11Bulk: how the stream is split includes not being split at all while being
+// large - several hundred KiB handed to the kernel at once, so that the proxy
+// finds far more than one read's worth of bytes waiting whenever it reads. The
+// requests leave over TCP (a static route to a TCP hop), every body is a
+// function of its position in the stream, and all of them must come out once,
+// intact, in order.
+func c11Bulk(t *testing.T, s *stdSvc) {
+	V.Require("lab: several hundred KiB written at once")
+	rcheck(t, "lab-bulk", V.N(12, 150), func(rt *rapid.T) {
+		entry := rapid.IntRange(0, 1).Draw(rt, "entry")
+		l := s.in.cfg.Listens[entry]
+		n := rapid.IntRange(6, 14).Draw(rt, "messages")
+		type exp struct {
+			id   string
+			body []byte
+		}
+		var exps []exp
+		var stream []byte
+		var wires [][]byte
+		for i := 0; i < n; i++ {
+			id := s.nextID("c11b-")
+			blen := rapid.IntRange(20000, 62000).Draw(rt, "body len")
+			var bb strings.Builder
+			for k := 0; bb.Len() < blen; k++ {
+				fmt.Fprintf(&bb, "%s/%d/%07d\r\n", id, i, k)
+			}
+			body := []byte(bb.String()[:blen])
+			long := ""
+			if rapid.IntRange(0, 2).Draw(rt, "long header") == 0 {
+				long = "X-Long: " + strings.Repeat(fmt.Sprintf("%d.", i), rapid.IntRange(1000, 9000).Draw(rt, "long units")) + "\r\n"
+			}
+			w := []byte(fmt.Sprintf("MESSAGE sip:x@r.wtcp.test SIP/2.0\r\nVia: SIP/2.0/TCP %s:5060;branch=z9hG4bK%s\r\nMax-Forwards: 70\r\nFrom: <sip:a@a.example>;tag=%s\r\nTo: <sip:x@r.wtcp.test>\r\nCall-ID: %s\r\nCSeq: %d MESSAGE\r\n%sContent-Type: text/plain\r\nContent-Length: %d\r\n\r\n", s.ip(13), id, id, id, i+1, long, len(body)))
+			w = append(w, body...)
+			exps = append(exps, exp{id, body})
+			wires = append(wires, w)
+			stream = append(stream, w...)
+		}
+		L := len(stream)
+		c, err := s.in.hub.dialTCP("c11", s.ip(13), l.Addr, l.TCPPort)
+		if err != nil {
+			failf(rt, "TCP listener does not accept: %v", err)
+		}
+		defer c.close()
+		V.Journal(t.Name()+"/lab-bulk", map[string]any{"messages": n, "stream_len": L})
+		s.model.learnRequest(s.model.transport(entry, "tcp"), s.ip(13), &AMsg{IsReq: true})
+		s.in.expect(wires...)
+		// one write, or two with the boundary anywhere
+		cut := L
+		if rapid.Bool().Draw(rt, "two writes") {
+			cut = rapid.IntRange(1, L-1).Draw(rt, "cut")
+		}
+		if err := c.send(stream[:cut]); err != nil {
+			failf(rt, "the proxy closed the connection in the middle of a well-formed stream of %d bytes: %v", L, err)
+		}
+		if cut < L {
+			if err := c.send(stream[cut:]); err != nil {
+				failf(rt, "the proxy closed the connection in the middle of a well-formed stream of %d bytes (after %d): %v", L, cut, err)
+			}
+		}
+		rs, err := s.in.settle(c.sendStrict, n)
+		if _, lost := err.(labLost); lost {
+			failf(rt, "%v (stream of %d messages, %d bytes, written at once)", err, n, L)
+		} else if err != nil {
+			V.HarnessError(rt, "%v", err)
+		}
+		got := labMessages(rs)
+		V.Class("lab: several hundred KiB written at once")
+		V.NonTrivial(fmt.Sprintf("bulk|%x", hash64(string(stream))))
+		V.EvalN(n)
+		byID := map[string][]labRx{}
+		var order []string
+		for _, r := range got {
+			id, _ := r.msg.First(hCallID)
+			byID[id] = append(byID[id], r)
+			order = append(order, id)
+		}
+		for i, e := range exps {
+			rs := byID[e.id]
+			if len(rs) != 1 {
+				failf(rt, "message %d of %d of a stream of %d bytes written at once was relayed %d times; receptions:\n%s", i+1, n, L, len(rs), labDescribe(got))
+			}
+			if rs[0].tcp == nil || rs[0].ep == nil || rs[0].ep.ip != s.ip(24) {
+				return // where a request goes is C03's and C18's subject
+			}
+			if string(rs[0].msg.Body) != string(e.body) {
+				d := 0
+				for d < len(e.body) && d < len(rs[0].msg.Body) && e.body[d] == rs[0].msg.Body[d] {
+					d++
+				}
+				failf(rt, "message %d of %d of a stream of %d bytes written at once: body of %d bytes relayed as %d bytes, first difference at offset %d: %s", i+1, n, L, len(e.body), len(rs[0].msg.Body), d, jsonBytes(rs[0].msg.Body[d:min(len(rs[0].msg.Body), d+80)]))
+			}
+		}
+		if len(got) != n {
+			failf(rt, "%d messages were relayed for a stream of %d messages written at once:\n%s", len(got), n, labDescribe(got))
+		}
+		for i := range exps {
+			if order[i] != exps[i].id {
+				failf(rt, "the messages of one connection, relayed over one connection, came out in another order: position %d carries %s, expected %s", i+1, order[i], exps[i].id)
+			}
+		}
+	})
 }
 
 // c11ReturnStreams: the byte streams the proxy reads from connections it opened
